@@ -85,13 +85,14 @@ public:
   template<typename S>
   size_t serialize(void* dst, size_t capacity, const S& serde) const;
 
+  // max_num_items: the most this compactor can hold given what the caller knows (checked before allocating)
   template<typename S>
   static req_compactor deserialize(std::istream& is, const S& serde, const Comparator& comparator,
-      const Allocator& allocator, bool sorted, bool hra);
+      const Allocator& allocator, bool sorted, bool hra, uint64_t max_num_items);
 
   template<typename S>
   static std::pair<req_compactor, size_t> deserialize(const void* bytes, size_t size, const S& serde,
-      const Comparator& comparator, const Allocator& allocator, bool sorted, bool hra);
+      const Comparator& comparator, const Allocator& allocator, bool sorted, bool hra, uint64_t max_num_items);
 
   template<typename S>
   static req_compactor deserialize(std::istream& is, const S& serde, const Comparator& comparator,
@@ -122,6 +123,7 @@ private:
   void ensure_space(uint32_t num);
 
   static uint32_t nearest_even(float value);
+  static void check_num_items(uint32_t num_items, uint64_t max_num_items);
 
   template<typename InIter, typename OutIter>
   static void promote_evens_or_odds(InIter from, InIter to, bool flag, OutIter dst);
